@@ -1,6 +1,6 @@
 import AslModel.Lemmas.DataTI
 /-!
-# C09 — STRING / RSTRING / BYTE / WORD (LONG) of the TMS3202x / 3205x / 3254x: every element in its own lane
+# C09 — STRING / RSTRING / BYTE / WORD / LONG of the TMS3202x / 3205x / 3254x: every element in its own lane
 
 Property theorems only (helper lemmas: `Lemmas/DataTI.lean`).  Model: `Model/DataTI.lean` (transcription of
 `tipseudo.c` `pseudo_store` and its callbacks `wr_code_byte_hilo`, `wr_code_byte_lohi`, `wr_code_byte`,
@@ -15,19 +15,52 @@ Property theorems only (helper lemmas: `Lemmas/DataTI.lean`).  Model: `Model/Dat
   byte `b0`: the word reads back as (`b0`, `v mod 256`) for STRING and RSTRING.
 * `C09_tistr_lanes_readback` — specification side: reading the lanes of a packed sequence back gives every element
   again (plus one zero for an odd count), whatever its neighbours are.
-* `C09_finding_ti_value_cut_to_32_bit` — proved negation (known finding): the callbacks receive the value through a
-  32-bit parameter, `byte 100000001h` is laid as 0001 where the manual's range rule makes it an error.
 
-Not yet a theorem (tested by the correspondence on every run, mode `c09t`): the whole-statement equality
-`decodeTI o t as = specTI o t as` for `o ≠ LONG`, tables of 256 entries and arguments whose integers are 32-bit values
-(it follows from `C09_tistr_callback_lane` by induction over the values an argument hands to the callback; the link
-`argVals` ↔ `specArgE` for character constants is the missing part); LONG (no range check in the code: equality
-holds for 32-bit values only); the slot layout `modelRunT`.
+The transcription has one flag, `cut` (`Model/DataTI.lean` `cutVal`; set each run by a probe of the real binary, `byte
+100000001h`; the SPEC never sees it): `cut = true` is the code up to /repo commit 5ab0322 (the callbacks' parameter
+is a 32-bit `LongInt`: open finding `ti-pseudo-store-value-cut-to-32-bit-before-range-check`), `cut = false` the code
+since (parameter `LargeInt`).  All theorems below hold for both.
+
+* `C09_ti_stmt_model_eq_spec` — **the whole statement**, all five statements (LONG included), every CHARSET table of
+  256 entries, every argument list of integers, double- and single-quoted strings and floats:
+      `decodeTI cut o t as = specTI o t as`     under `∀ a ∈ as, tiArgOK cut o a`
+  where `tiArgOK` (a decidable predicate on one argument, `Model/DataTI.lean`, evaluated by the driver on every case)
+  asks: an integer is a value the 64-bit evaluator can deliver and passes `okCut cut o` — for LONG: it is inside the
+  manual's range of a 32-bit element (`wr_code_long` has no range check, before and after the repair); for the others
+  with `cut = true`: the conversion to the callbacks' 32-bit parameter leaves it as it is, or what is left of it is
+  refused as well; with `cut = false`: nothing — and a single-quoted string is not empty.
+  `C09_ti_stmt_32bit` is the instance "every integer is a 32-bit value" (`-2^31 ≤ v < 2^31`).
+* `C09_ti_full_width_range_check` — **the repaired code** (`cut = false`), STRING / RSTRING / BYTE / WORD: for EVERY
+  argument list whose integers are 64-bit values (no condition on them) the statement is laid, or refused, as the manual
+  says; in particular `byte 100000001h` is now an error (the positive form of the former finding theorem).
+* `C09_ti_cut_hypothesis_exact` — `okCut` is not merely sufficient: for EVERY 64-bit value `v` the one-argument statement
+  satisfies `decodeTI cut o t [v] = specTI o t [v]` **iff** `okCut cut o v`; outside it the code lays something where the
+  manual says error.  For `cut = true` that class is the finding `ti-pseudo-store-value-cut-to-32-bit-before-range-check`,
+  for `cut = false` what is left of it: LONG without range check.
+  `C09_ti_stmt_hypothesis_needed` shows the hypotheses needed on concrete inputs (the witnesses of
+  `C09_finding_ti_value_cut_to_32_bit`; the empty character constant `''`, which the code lays as the integer 0 —
+  real binary: `byte 1,'',2` → 0001 0000 0002 — while a string without characters has no elements).
+* `C09_finding_ti_value_cut_to_32_bit` — proved negation (known finding): with the 32-bit parameter `byte 100000001h`
+  is laid as 0001 where the manual's range rule makes it an error; `long 100000000h` is laid as 0000 0000 by both
+  versions of the code.
+* `C09_ti_stmt_args_independent` — consequence: under the hypothesis a statement lays its arguments' elements one
+  after the other in consecutive lanes; splitting the argument list over the same lanes changes nothing.
+
+* `C09_ti_slot_model_eq_spec` — **the slot**: a list of DATA / STRING / RSTRING / BYTE / WORD / LONG statements laid one
+  after the other from any address (what mode `c09t` compares per run): the (byte offset, byte) cells and the end
+  address of the transcription (`modelRunT`: `DecodeDATA_TI` resp. `pseudo_store`, the cell buffer as bytes, `WriteBytes`
+  with `DreheCodes`) are the manual's (unit offset, unit value) cells (`specRunT`), every 16-bit unit written as its
+  two bytes at byte offset 2·unit (`unitCells`, `Lemmas/DataWord.lean`; low byte first unless `WriteBytes` turns
+  them); an error in any statement voids the slot on both sides.  Hypothesis `stmtOKb` (`Model/DataTI.lean`): `tiArgOK` for
+  the five statements, for DATA the argument forms of `C09_data_model_eq_spec`; mode `c09t` reports for every case
+  whether it holds (`pre=`).
+
+Nothing of `Model/DataTI.lean` is left that is only compared; the correspondence (mode `c09t`) ties the model to the binaries.
 -/
 namespace AslModel.C09
 open AslModel.PFile (Byte b)
 open AslModel.Data AslModel.DataModel AslModel.DataX AslModel.DataXModel
-open AslModel.DataW AslModel.DataWModel AslModel.DataTI AslModel.DataTIModel AslModel.DataTILemmas
+open AslModel.DataW AslModel.DataWModel AslModel.DataWLemmas AslModel.DataTI AslModel.DataTIModel AslModel.DataTILemmas
 
 /-- **Each value occupies exactly its own lane** — the callbacks of `pseudo_store` (STRING, RSTRING, BYTE, WORD), every
 history `es` of elements already stored (bytes below 256 for the byte statements), every 64-bit value `v`. -/
@@ -110,19 +143,171 @@ theorem C09_tistr_lanes_readback (es : List Nat) (hes : ∀ y ∈ es, y < 256) :
 example : lanesHiLo (packHiLo [1, 0xff, 0x41]) = [1, 0xff, 0x41, 0] := by decide
 
 /-- `string 1,-1` / `rstring 1,-1,-128,5` / `string "A",-128,7` as statements -/
-example : decodeTI .string tableInit [.int 1, .int (-1)] = some [0x01ff] ∧
-    decodeTI .rstring tableInit [.int 1, .int (-1), .int (-128), .int 5] = some [0xff01, 0x0580] ∧
-    decodeTI .string tableInit [.str [0x41], .int (-128), .int 7] = some [0x4180, 0x0700] := by decide
+example : decodeTI false .string tableInit [.int 1, .int (-1)] = some [0x01ff] ∧
+    decodeTI true .rstring tableInit [.int 1, .int (-1), .int (-128), .int 5] = some [0xff01, 0x0580] ∧
+    decodeTI false .string tableInit [.str [0x41], .int (-128), .int 7] = some [0x4180, 0x0700] := by decide
 example : specTI .string identityMap [.int 1, .int (-1)] = some [0x01ff] ∧
     specTI .string identityMap [.str [0x41], .int (-128), .int 7] = some [0x4180, 0x0700] := by decide
 
 /-! ## proved negation (known finding) -/
 
-/-- `pseudo_store` hands the value to its callbacks as a 32-bit `LongInt`: `byte 100000001h` lays 0001 and
-`long 100000000h` lays 0000 0000, where the manual's range rule makes both statements errors. -/
+/-- Up to /repo commit 5ab0322 `pseudo_store` hands the value to its callbacks as a 32-bit `LongInt` (`cut = true`):
+`byte 100000001h` lays 0001 where the manual's range rule makes the statement an error; since the repair
+(`cut = false`) it is refused.  `long 100000000h` lays 0000 0000 in both versions (`wr_code_long` has no range check). -/
 theorem C09_finding_ti_value_cut_to_32_bit :
-    decodeTI .byte tableInit [.int 0x100000001] = some [1] ∧ specTI .byte identityMap [.int 0x100000001] = none ∧
-    decodeTI .long tableInit [.int 0x100000000] = some [0, 0] ∧ specTI .long identityMap [.int 0x100000000] = none := by
+    decodeTI true .byte tableInit [.int 0x100000001] = some [1] ∧ specTI .byte identityMap [.int 0x100000001] = none ∧
+    decodeTI false .byte tableInit [.int 0x100000001] = none ∧
+    (∀ cut, decodeTI cut .long tableInit [.int 0x100000000] = some [0, 0]) ∧ specTI .long identityMap [.int 0x100000000] = none := by
   decide
+
+/-! ## the whole statement -/
+
+/-- **MODEL = SPEC for the whole statement** — STRING, RSTRING, BYTE, WORD and LONG, every 256-entry character table,
+every argument list: the transcription of `pseudo_store` with its callback lays exactly the manual's elements in the
+manual's lanes, and is in error exactly when the manual says so. -/
+theorem C09_ti_stmt_model_eq_spec (cut : Bool) (o : TIOp) (t : List Byte) (ht : t.length = 256) (as : List WArg)
+    (ha : ∀ a ∈ as, tiArgOK cut o a = true) : decodeTI cut o t as = specTI o t as :=
+  decodeTI_eq_spec cut o t ht as ha
+
+example : ∀ a ∈ [WArg.str [0x41, 0x42, 0x43], .int (-128), .chr [0x61], .chr [0x61, 0x62], .int 0x100000100, .flt 0],
+    tiArgOK true .rstring a = true := by decide
+example : ∀ a ∈ [WArg.int 0xffffffff, .chr [0x61, 0x62, 0x63, 0x64], .str [0x41], .int (-0x80000000)], tiArgOK true .long a = true := by
+  decide
+example : decodeTI true .rstring tableInit [.str [0x41, 0x42, 0x43], .int (-128), .chr [0x61], .chr [0x61, 0x62]]
+    = some [0x4241, 0x8043, 0x6161, 0x0062] := by decide
+example : decodeTI true .long tableInit [.int 0xffffffff, .chr [0x61, 0x62, 0x63, 0x64], .str [0x41], .int (-0x80000000)]
+    = some [0xffff, 0xffff, 0x6364, 0x6162, 0x41, 0, 0, 0x8000] := by decide
+
+/-- the instance "integers in the 32-bit range, strings and non-empty character constants" (`tiArg32`, `Lemmas/DataTI.lean`) -/
+theorem C09_ti_stmt_32bit (cut : Bool) (o : TIOp) (t : List Byte) (ht : t.length = 256) (as : List WArg)
+    (ha : ∀ a ∈ as, tiArg32 a = true) : decodeTI cut o t as = specTI o t as := by
+  apply decodeTI_eq_spec cut o t ht as
+  intro a hmem
+  have h := ha a hmem
+  cases a with
+  | int v =>
+    simp only [tiArg32, decide_eq_true_eq] at h
+    simp only [tiArgOK, Bool.and_eq_true, decide_eq_true_eq]
+    refine ⟨?_, okCut_of_32bit cut o v h⟩
+    simp only [Int.reducePow] at h ⊢
+    omega
+  | chr cs => exact h
+  | str cs => rfl
+  | flt x => rfl
+
+example : ∀ a ∈ [WArg.int (-0x80000000), .int 0x7fffffff, .chr [0x61, 0x62], .str [1, 2, 3]], tiArg32 a = true := by decide
+
+/-- **`okCut` is exact**: for every value the 64-bit evaluator can deliver, the statement with that one argument is laid
+(or refused) as the manual says if and only if the value passes `okCut`. -/
+theorem C09_ti_cut_hypothesis_exact (cut : Bool) (o : TIOp) (t : List Byte) (ht : t.length = 256) (v : Int)
+    (hv : -(2 : Int) ^ 63 ≤ v ∧ v < (2 : Int) ^ 63) :
+    decodeTI cut o t [.int v] = specTI o t [.int v] ↔ okCut cut o v = true := by
+  constructor
+  · intro h
+    cases hc : okCut cut o v with
+    | true => rfl
+    | false =>
+      have hx := int_stmt_cut cut o t t v hv hc
+      rw [h, hx.2] at hx
+      cases hx.1
+  · intro hc
+    apply decodeTI_eq_spec cut o t ht
+    intro a hmem
+    simp only [List.mem_cons, List.mem_nil_iff, or_false] at hmem
+    subst hmem
+    simp only [tiArgOK, Bool.and_eq_true, decide_eq_true_eq]
+    exact ⟨hv, hc⟩
+
+example : okCut true .word 0x10000ffff = false ∧ okCut true .word 0x100010000 = true ∧ okCut true .long 0xffffffff = true ∧
+    okCut true .long 0x100000000 = false ∧ okCut true .byte 0xffffff80 = false ∧ okCut true .byte (-128) = true ∧
+    okCut false .word 0x10000ffff = true ∧ okCut false .long 0x100000000 = false := by decide
+
+/-- integers that are 64-bit values, single-quoted strings that are not empty -/
+example : ∀ a ∈ [WArg.int 0x100000001, .int (-0x8000000000000000), .chr [0x61], .str [1, 2]], tiArg64 a = true := by decide
+
+/-- **The repaired code range-checks the full-width value** (`cut = false`: the callbacks' parameter is `LargeInt val`,
+/repo commit 5ab0322): STRING, RSTRING, BYTE and WORD with ANY 64-bit integers lay exactly the manual's elements and
+are in error exactly when a value is outside `-2^(w-1) … 2^w-1` — `byte 100000001h`, `word 7fffffffffffffffh` included. -/
+theorem C09_ti_full_width_range_check (o : TIOp) (ho : o ≠ .long) (t : List Byte) (ht : t.length = 256) (as : List WArg)
+    (ha : ∀ a ∈ as, tiArg64 a = true) : decodeTI false o t as = specTI o t as := by
+  apply decodeTI_eq_spec false o t ht as
+  intro a hmem
+  have h := ha a hmem
+  cases a with
+  | int v =>
+    simp only [tiArg64] at h
+    simp only [tiArgOK, Bool.and_eq_true]
+    refine ⟨h, ?_⟩
+    cases o with
+    | long => exact absurd rfl ho
+    | string | rstring | byte | word => rfl
+  | chr cs => exact h
+  | str cs => rfl
+  | flt x => rfl
+
+example : decodeTI false .byte tableInit [.int 0x100000001] = none ∧ decodeTI false .word tableInit [.int 0x7fffffffffffffff] = none ∧
+    decodeTI false .string tableInit [.int 1, .int (-0xffffffff)] = none ∧ decodeTI false .byte tableInit [.int 255, .int (-128)] = some [0xff, 0x80] := by
+  decide
+
+
+/-- **both hypotheses of `C09_ti_stmt_model_eq_spec` are needed**: the witnesses of the open finding fail `okCut` and
+the statement is laid where the manual says error; the empty character constant is laid as the integer 0. -/
+theorem C09_ti_stmt_hypothesis_needed :
+    (tiArgOK true .byte (.int 0x100000001) = false ∧
+      decodeTI true .byte tableInit [.int 0x100000001] ≠ specTI .byte tableInit [.int 0x100000001]) ∧
+    (∀ cut, tiArgOK cut .long (.int 0x100000000) = false ∧
+      decodeTI cut .long tableInit [.int 0x100000000] ≠ specTI .long tableInit [.int 0x100000000]) ∧
+    (∀ cut, tiArgOK cut .string (.chr []) = false ∧ decodeTI cut .string tableInit [.int 5, .chr [], .int 6] = some [0x0500, 0x0600] ∧
+      specTI .string tableInit [.int 5, .chr [], .int 6] = some [0x0506]) := by
+  have hf := C09_finding_ti_value_cut_to_32_bit
+  have e : identityMap = tableInit := rfl
+  rw [e] at hf
+  refine ⟨⟨by decide, ?_⟩, ?_, by decide⟩
+  · rw [hf.1, hf.2.1]; exact fun h => by cases h
+  · intro cut
+    refine ⟨by cases cut <;> decide, ?_⟩
+    rw [hf.2.2.2.1 cut, hf.2.2.2.2]; exact fun h => by cases h
+
+/-- **Arguments are independent and fill consecutive lanes**: the elements of `as ++ bs` are those of `as` followed by
+those of `bs`; one statement with all arguments lays what the element sequence of the two halves prescribes. -/
+theorem C09_ti_stmt_args_independent (cut : Bool) (o : TIOp) (t : List Byte) (ht : t.length = 256) (as bs : List WArg)
+    (ha : ∀ a ∈ as, tiArgOK cut o a = true) (hb : ∀ a ∈ bs, tiArgOK cut o a = true) :
+    decodeTI cut o t (as ++ bs) =
+      match specElems o t as, specElems o t bs with
+      | some x, some y => some (layout o (x ++ y))
+      | _, _ => none := by
+  rw [decodeTI_eq_spec cut o t ht (as ++ bs) (by
+    intro a h
+    rcases List.mem_append.mp h with h | h
+    · exact ha a h
+    · exact hb a h)]
+  unfold specTI
+  rw [specElems_append]
+  cases specElems o t as <;> cases specElems o t bs <;> rfl
+
+example : tableInit.length = 256 ∧ (∀ a ∈ [WArg.str [0x41]], tiArgOK false .string a = true) ∧
+    (∀ a ∈ [WArg.int (-1), .str [0x42]], tiArgOK false .string a = true) := by decide +kernel
+example : decodeTI false .string tableInit ([.str [0x41]] ++ [.int (-1), .str [0x42]]) = some [0x41ff, 0x4200] := by decide
+
+/-! ## the slot -/
+
+/-- **MODEL = SPEC for a slot of statements** (TMS3202x/5x/54x: `DecodeDATA_TI` = `DecodeDATA(Int16, Int16)`, 16-bit
+units, two bytes per unit in the code file), every start address, listing granularity and `TurnWords` setting, every
+256-entry character table, every statement list over the stated argument forms. -/
+theorem C09_ti_slot_model_eq_spec (cut : Bool) (t : List Byte) (ht : t.length = 256) (lg : Nat) (turn : Bool) (stmts : List TIStmt)
+    (h : ∀ st ∈ stmts, stmtOKb cut st = true) (pc : Nat) :
+    (mkCtx Generated.itInt16 t).bind (fun d => modelRunT cut d 2 lg turn pc stmts) =
+      (specRunT ⟨16, .twoPerWord, t⟩ pc stmts).map fun r => (unitCells (swapOf lg turn) r.1, r.2) :=
+  slot_eq_spec cut t ht lg turn stmts (fun st hst => stmtOKb_ok cut st (h st hst)) pc
+
+example : ∀ st ∈ [TIStmt.ti .string [.str [0x41, 0x42, 0x43], .int (-1)], .data [.int (-2), .str [0x61]], .ti .long [.int 0x12345678]],
+    stmtOKb true st = true := by decide
+example : (mkCtx Generated.itInt16 tableInit).bind (fun d => modelRunT true d 2 2 false 16
+      [.ti .string [.str [0x41, 0x42, 0x43], .int (-1)], .data [.int (-2), .str [0x61]], .ti .long [.int 0x12345678]]) =
+    some ([(32, 0x42), (33, 0x41), (34, 0xff), (35, 0x43), (36, 0xfe), (37, 0xff), (38, 0x61), (39, 0),
+           (40, 0x78), (41, 0x56), (42, 0x34), (43, 0x12)], 22) := by decide
+example : specRunT ⟨16, .twoPerWord, tableInit⟩ 16
+      [.ti .string [.str [0x41, 0x42, 0x43], .int (-1)], .data [.int (-2), .str [0x61]], .ti .long [.int 0x12345678]] =
+    some ([(16, 0x4142), (17, 0x43ff), (18, 0xfffe), (19, 0x61), (20, 0x5678), (21, 0x1234)], 22) := by decide
 
 end AslModel.C09
